@@ -40,7 +40,7 @@ CONSTS = {
     ),
     "thorough": (
         dict(NSyms=3, MaxLen=3, MaxUses=2, MaxGuards=1, WithODE="TRUE", MaxFeat=5, MaxAdm=5, MinEmit=1, MinCands=0, MaxRmSet=2, SampleMod=8, Thin=1, FullDepth=0, ChainMode="FALSE"),
-        dict(NSyms=4, MaxLen=8, MaxUses=2, MaxGuards=3, WithODE="TRUE", MaxFeat=12, MaxAdm=5, MinEmit=6, MinCands=0, MaxRmSet=1, SampleMod=12, Thin=64, FullDepth=1, ChainMode="FALSE"),
+        dict(NSyms=4, MaxLen=8, MaxUses=2, MaxGuards=3, WithODE="TRUE", MaxFeat=12, MaxAdm=5, MinEmit=6, MinCands=0, MaxRmSet=1, SampleMod=6, Thin=96, FullDepth=1, ChainMode="FALSE"),
         dict(NSyms=4, MaxLen=6, MaxUses=1, MaxGuards=0, WithODE="FALSE", MaxFeat=9, MaxAdm=6, MinEmit=4, MinCands=0, MaxRmSet=2, SampleMod=16, Thin=1, FullDepth=0, ChainMode="TRUE"),
     ),
 }
